@@ -2,23 +2,60 @@
 //! Coverage-guided fuzzing (libFuzzer + AddressSanitizer) of the `vm` engine: the bytes are
 //! decoded by the same decoder proptest uses, the semantic oracle runs inside the target, and a
 //! violation of the property named in VERIF_FUZZ_PROP (default: any) aborts the run so that
-//! libFuzzer saves the input.
+//! libFuzzer saves the input.  Every 20000 executions a small stats file (VERIF_FUZZ_STATS) is
+//! rewritten: executions, distinct non-trivial cases for the property, class histogram.
 use libfuzzer_sys::fuzz_target;
+use std::cell::RefCell;
+use std::collections::{BTreeMap, HashSet};
+
+struct Stats {
+    evals: u64,
+    nt: HashSet<u64>,
+    classes: BTreeMap<&'static str, u64>,
+}
+
+thread_local! {
+    static STATS: RefCell<Stats> = RefCell::new(Stats { evals: 0, nt: HashSet::new(), classes: BTreeMap::new() });
+}
+
+fn flush(s: &Stats) {
+    if let Ok(path) = std::env::var("VERIF_FUZZ_STATS") {
+        let cls: Vec<String> = s.classes.iter().map(|(k, v)| format!("\"{}\": {}", k, v)).collect();
+        let _ = std::fs::write(
+            path,
+            format!("{{\"evaluations\": {}, \"distinct_nontrivial\": {}, \"classes\": {{{}}}}}", s.evals, s.nt.len(), cls.join(", ")),
+        );
+    }
+}
 
 fuzz_target!(|data: &[u8]| {
     let prop = std::env::var("VERIF_FUZZ_PROP").unwrap_or_default();
     let opts = vcore::Opts {
         focus: prop.clone(),
-        size: 1,
+        size: 0,
         ..Default::default()
     };
     let rep = vcore::run_engine("vm", data, &opts);
+    STATS.with(|st| {
+        let mut s = st.borrow_mut();
+        s.evals += 1;
+        if rep.nontrivial.iter().any(|p| *p == prop) {
+            s.nt.insert(vcore::fnv(data));
+        }
+        for c in &rep.classes {
+            *s.classes.entry(c).or_insert(0) += 1;
+        }
+        if s.evals % 20000 == 0 {
+            flush(&s);
+        }
+    });
     let hit = if prop.is_empty() {
         rep.violations.first()
     } else {
         rep.violates(&prop)
     };
     if let Some(v) = hit {
+        STATS.with(|st| flush(&st.borrow()));
         eprintln!("VIOLATION-IN-TARGET {:?} [{}] {}", v.props, v.rule, v.msg);
         std::process::abort();
     }
